@@ -10,7 +10,10 @@ package c15
 
 import (
 	"fmt"
+	"io"
 	"math"
+
+	"github.com/EliCDavis/polyform/formats/splat"
 
 	"verif/harness/core"
 )
@@ -77,4 +80,30 @@ func (k *checker) runSplatValues() {
 		}
 	}
 	c.Bound("splat.value_ladders", fmt.Sprintf("position: %d float32 values x 3 components; scale %v; colour (f_dc) %v; opacity %v; rotation component %v — each in the second of two splats, the other fields ordinary", len(lad), scLadder, fdcLadder, opLadder, rotLadder))
+}
+
+// a write after a failed write (core.AfterFailedWrite): splat.Write of a 3-splat cloud right after a
+// 200-splat cloud hit a sink that errors after 0 … 20000 bytes
+func (k *checker) runAfterFailedWrite() {
+	if !k.mine() {
+		return
+	}
+	k.runAfterFailedWriteReplay()
+}
+
+func (k *checker) runAfterFailedWriteReplay() {
+	big, small := ladderCloud(200), ladderCloud(3)
+	k.c.Nontrivial("after-failed-write")
+	why := core.AfterFailedWrite(core.FailLimits, func(it int, w io.Writer) error {
+		if it == 0 {
+			return splat.Write(w, buildSplatMesh(big))
+		}
+		return splat.Write(w, buildSplatMesh(small))
+	})
+	if why != "" {
+		k.c.Eval("splat/after-failed-write", "mismatch")
+		k.fail("splat.Write", "writing a cloud yields its own records (also right after an earlier write failed)", "after-failed-write", why, Case{Kind: "after-failed-write"})
+		return
+	}
+	k.c.Eval("splat/after-failed-write", "ok")
 }
